@@ -31,7 +31,7 @@ Ch alpha(unsigned i)
 {
     switch (i) {
     case 0: return Ch('a');
-    case 1: return static_cast<Ch>(0xE9);
+    case 1: return sizeof(Ch) == 1 ? static_cast<Ch>(0xE9) : static_cast<Ch>(~Ch(0x16)); // top bit set: sign of compare for every character type
     case 2: return Ch('b');
     default: return Ch(0);
     }
